@@ -222,8 +222,12 @@ pub fn url_for(r: &mut Rng, rule_line: &str) -> String {
     };
     let rest = rest.trim_end_matches('|').replace('^', "/").replace('*', "q-");
     let scheme = r.pick(&["https", "http"]);
-    let pre = if r.chance(1, 3) && !pat.starts_with("||") { format!("/{}", r.pick(VOCAB)) } else { String::new() };
-    let post = if r.chance(1, 3) { format!("/{}", r.pick(VOCAB)) } else { String::new() };
+    // sometimes glue an alphanumeric run directly onto the pattern text (no separator): a token of
+    // the pattern is then only part of a longer URL token
+    let pre = if pat.starts_with("||") { String::new() } else { match r.below(6) { 0 | 1 => format!("/{}", r.pick(VOCAB)), 2 => format!("/{}", r.pick(&["lo", "x9", "b"])), _ => String::new() } };
+    let pre = if pre.len() == 3 || pre.len() == 2 { pre } else if pre.is_empty() { pre } else { format!("{}/", pre) };
+    let post = match r.below(6) { 0 | 1 => format!("/{}", r.pick(VOCAB)), 2 => (*r.pick(&["s", "2x", "er"])).to_string(), _ => String::new() };
+    let rest = if !pre.is_empty() && !pre.ends_with('/') { rest.trim_start_matches('/').to_string() } else { rest };
     format!("{}://{}{}{}{}", scheme, host, pre, rest, post)
 }
 
